@@ -911,6 +911,24 @@ fn main() {
                     _ => {}
                 }
             }
+            // private named fields are made `pub` (the generated file is one flat module)
+            let mut field_edits: Vec<Edit> = vec![];
+            for it in &src.ast.items {
+                if let syn::Item::Struct(st) = it {
+                    if st.ident == name {
+                        if let syn::Fields::Named(nf) = &st.fields {
+                            for f in &nf.named {
+                                if matches!(f.vis, syn::Visibility::Inherited) {
+                                    if let Some(id) = &f.ident {
+                                        let (fs, _) = src.range(id.span());
+                                        field_edits.push(Edit { start: fs, end: fs, text: "pub ".to_string(), prio: 0 });
+                                    }
+                                }
+                            }
+                        }
+                    }
+                }
+            }
             let (sp, attrs, _vis, kw) = found.unwrap_or_else(|| die(&format!("ITEM {} not found in {}", name, rel)));
             let (_s, e) = src.range(sp);
             let (ks, _) = src.range(kw);
@@ -940,7 +958,7 @@ fn main() {
                 }
             }
             out.push(&format!("#[derive({})]\npub ", derives.join(", ")), &format!("tmpl:{}", ln + 1));
-            let mut edits = vec![];
+            let mut edits = field_edits;
             // `pub (super)` / `pub (crate)` inside the item -> `pub`
             let body = &src.text[ks..e];
             let mut search = 0;
